@@ -230,7 +230,7 @@ MUTATIONS += [
     # R4s / R4q: sampling
     dict(id="r4s-kron-sample-axes", file=TINNER, old="            y0 = y0.unsqueeze(dim=2)  # (F, K, 1, num_samples, D)", new="            y0 = y0.unsqueeze(dim=3)  # (F, K, 1, num_samples, D)", expect={"C15": ["R4s:cirkit.backend.torch.layers.inner.TorchKroneckerLayer:sample"]}),
     dict(id="r4s-cat-sample-permute", file=TINPUT, old="        dist = distributions.Categorical(logits=logits)\n        # samples: (N, F, K)\n        samples = dist.sample((num_samples,))\n        samples = samples.permute(1, 2, 0)", new="        dist = distributions.Categorical(logits=logits)\n        # samples: (N, F, K)\n        samples = dist.sample((num_samples,))\n        samples = samples.permute(2, 1, 0)", expect={"C15": ["R4s:cirkit.backend.torch.layers.input.TorchCategoricalLayer:sample"]}),
-    dict(id="r4q-pad-zeros", file=QUER, old="            (*samples.shape, len(self._circuit.scope)),", new="            (len(self._circuit.scope), *samples.shape),", expect={"C15": ["R4q:cirkit.backend.torch.queries.SamplingQuery._pad_samples:pad"]}),
+    dict(id="r4q-pad-zeros", file=QUER, old="            (*samples.shape, num_rvs), device", new="            (num_rvs, *samples.shape), device", expect={"C15": ["R4q:cirkit.backend.torch.queries.SamplingQuery._pad_samples:pad"]}),
     # R4a: parameter operators
     dict(id="r4a-outer-unsqueeze", file=TNODES, old="        x2 = x2.unsqueeze(self.dim + 1)  # (F, K1, K2, ..., 1, Ki2, ...., Kn)", new="        x2 = x2.unsqueeze(self.dim + 2)  # (F, K1, K2, ..., 1, Ki2, ...., Kn)", expect={"C14": ["R4a:cirkit.backend.torch.parameters.nodes.TorchOuterProductParameter:forward"]}, allow_others=True),
     dict(id="r4a-mixing-permute", file=TNODES, old="        return diag_weights.permute(0, 2, 1, 3).flatten(start_dim=2)", new="        return diag_weights.permute(0, 2, 1, 3).flatten(start_dim=1)", expect={"C14": ["R4a:cirkit.backend.torch.parameters.nodes.TorchMixingWeightParameter:forward"]}, allow_others=True),
@@ -467,4 +467,45 @@ MUTATIONS += [
     dict(id="w6-c20f", patch="seeded/C20f/patch.diff", expect={'C20': ['R13f:']}, allow_others=True),
     dict(id="r8-smoothing-extends-any-node", file="cirkit/templates/logic/graph.py", old="                    if isinstance(input_to_d, ConjunctionNode):", new="                    if input_to_d in in_nodes:", expect={"C20": ["R8:cirkit.templates.logic.graph.LogicalCircuit.smooth:smoothing-conjoins"]}),
     dict(id="r14g-sorted-pairs", file=FUN, old="            next_to_multiply = [(l1_inputs[i], l2_inputs[l2_matches[i]]) for i in range(len(l1_inputs))]", new="            next_to_multiply = [(l1_inputs[i], l2_inputs[j]) for i, j in zip(l1_ranks, l2_ranks)]", expect={"C04": ["R14g:"]}),
+    # ---- wave-7 seeds as kept
+    dict(id="w7-c08e", patch="seeded/C08e/patch.diff", expect={'C08': ['R7d:']}, allow_others=True),
+    dict(id="w7-c08f", patch="seeded/C08f/patch.diff", expect={'C08': ['R7t:']}, allow_others=True),
+    dict(id="w7-c12e", patch="seeded/C12e/patch.diff", expect={'C12': ['R11l:'], 'C14': ['R11l:']}, allow_others=True),
+    dict(id="w7-c12f", patch="seeded/C12f/patch.diff", expect={'C12': ['R13g:']}, allow_others=True),
+    dict(id="w7-c13e", patch="seeded/C13e/patch.diff", expect={'C13': ['R11j:']}, allow_others=True),
+    dict(id="w7-c13f", patch="seeded/C13f/patch.diff", expect={'C13': ['R11c:']}, allow_others=True),
+    dict(id="w7-c04g", patch="seeded/C04g/patch.diff", expect={'C04': ['R7e:']}, allow_others=True),
+    dict(id="w7-c04h", patch="seeded/C04h/patch.diff", expect={'C04': ['R2a:']}, allow_others=True),
+    dict(id="w7-c10e", patch="seeded/C10e/patch.diff", expect={'C10': ['R2a:']}, allow_others=True),
+    dict(id="w7-c03f", patch="seeded/C03f/patch.diff", expect={'C03': ['R11k:'], 'C14': ['R11k:']}, allow_others=True),
+    dict(id="w7-c03g", patch="seeded/C03g/patch.diff", expect={'C03': ['R2e:']}, allow_others=True),
+    dict(id="w7-c15e", patch="seeded/C15e/patch.diff", expect={'C15': ['R14n:']}, allow_others=True),
+    dict(id="w7-c15f", patch="seeded/C15f/patch.diff", expect={'C15': ['R14p:']}, allow_others=True),
+    dict(id="w7-c06g", patch="seeded/C06g/patch.diff", expect={'C06': ['R3m:'], 'C02': ['R3m:'], 'C01': ['R3m:']}, allow_others=True),
+    dict(id="w7-c06h", patch="seeded/C06h/patch.diff", expect={'C06': ['R3l:'], 'C02': ['R3l:'], 'C01': ['R3l:']}, allow_others=True),
+    dict(id="w7-c07e", patch="seeded/C07e/patch.diff", expect={'C07': ['X1:']}, allow_others=True),
+    dict(id="w7-c07f", patch="seeded/C07f/patch.diff", expect={'C07': ['X1:']}, allow_others=True),
+    # ---- wave-7 rules: reverted repairs (D30, D9/D31, D32) are reported again; behaviour-preserving twins stay silent
+    dict(id="r4q-pad-len-scope", file=QUER, old="        num_rvs = max(self._circuit.scope) + 1\n        padded_samples", new="        num_rvs = len(self._circuit.scope)\n        padded_samples", expect={"C15": ["R4q:cirkit.backend.torch.queries.SamplingQuery._pad_samples:pad"]}),
+    dict(id="q-r4q-pad-inline-max", quiet=True, file=QUER, old="        num_rvs = max(self._circuit.scope) + 1\n        padded_samples = torch.zeros(\n            (*samples.shape, num_rvs),", new="        padded_samples = torch.zeros(\n            (*samples.shape, 1 + max(self._circuit.scope)),", expect={}),
+    dict(id="r14q-reindex-dropped", file=OPS, old="    if sl1.num_input_units > 1 and sl2.arity > 1:\n        # The columns", new="    if False:\n        # The columns", expect={"C04": ["R14q:", "L1:"]}),
+    dict(id="r14q-reindex-extra-condition", file=OPS, old="    if sl1.num_input_units > 1 and sl2.arity > 1:\n        # The columns", new="    if sl1.num_input_units > 1 and sl2.arity > 1 and sl1.arity > 1:\n        # The columns", expect={"C04": ["R14q:cirkit.symbolic.operators.multiply_sum_layers:kronecker-columns:when"]}),
+    dict(id="r14q-reindex-wrong-nesting", file=OPS, old="            for a2 in range(sl2.arity)\n            for i1 in range(sl1.num_input_units)\n", new="            for i1 in range(sl1.num_input_units)\n            for a2 in range(sl2.arity)\n", expect={"C04": ["R14q:cirkit.symbolic.operators.multiply_sum_layers:kronecker-columns:indices"]}),
+    dict(id="r14q-reindex-wrong-polynomial", file=OPS, old="            ((a1 * sl1.num_input_units + i1) * sl2.arity + a2) * sl2.num_input_units + i2", new="            ((a1 * sl2.arity + a2) * sl1.num_input_units + i1) * sl2.num_input_units + i2", expect={"C04": ["R14q:cirkit.symbolic.operators.multiply_sum_layers:kronecker-columns:indices"]}),
+    dict(id="q-r14q-reindex-expanded-polynomial", quiet=True, file=OPS, old="            ((a1 * sl1.num_input_units + i1) * sl2.arity + a2) * sl2.num_input_units + i2", new="            (a1 * sl1.num_input_units + i1) * (sl2.arity * sl2.num_input_units) + a2 * sl2.num_input_units + i2", expect={}),
+    dict(id="q-r14q-condition-swapped", quiet=True, file=OPS, old="    if sl1.num_input_units > 1 and sl2.arity > 1:\n        # The columns", new="    if sl2.arity > 1 and sl1.num_input_units > 1:\n        # The columns", expect={}),
+    dict(id="r14q-sum-pairs-second-major", file=FUN, old="            next_to_multiply = list(itertools.product(l1_inputs, l2_inputs))", new="            next_to_multiply = [(a, b) for b, a in itertools.product(l2_inputs, l1_inputs)]", expect={"C04": ["R14q:cirkit.symbolic.functional.multiply:sum-pairs"]}, allow_others=True),
+    dict(id="r5g-matmul-not-promoted", file=TNODES, old="        dtype = torch.promote_types(x1.dtype, x2.dtype)\n        return torch.matmul(x1.to(dtype), x2.to(dtype))", new="        return torch.matmul(x1, x2)", expect={"C02": ["R5g:cirkit.backend.torch.parameters.nodes.TorchMatMulParameter"], "C07": ["R5g:"]}),
+    dict(id="r5g-einsum-not-promoted", file="cirkit/backend/torch/parameters/optimized.py", old="        xs = tuple(x.to(dtype) for x in xs)\n", new="", expect={"C02": ["R5g:cirkit.backend.torch.parameters.optimized.TorchEinsumParameter"], "C07": ["R5g:"]}),
+    dict(id="q-r5g-matmul-type-as", quiet=True, file=TNODES, old="        dtype = torch.promote_types(x1.dtype, x2.dtype)\n        return torch.matmul(x1.to(dtype), x2.to(dtype))", new="        out_dtype = torch.result_type(x1, x2)\n        lhs, rhs = x1.to(out_dtype), x2.to(out_dtype)\n        return torch.matmul(lhs, rhs)", expect={}),
+    dict(id="q-r3l-running-sum", quiet=True, file=FOLD, old="    cum_module_ids = [\n        dict(zip(mids, itertools.accumulate([0] + [num_folds[mid] for mid in mids])))\n        for mids in in_module_ids\n    ]\n", new="    cum_module_ids: list[dict[int, int]] = []\n    for mids in in_module_ids:\n        offset = 0\n        offsets: dict[int, int] = {}\n        for mid in mids:\n            offsets[mid] = offset\n            offset += num_folds[mid]\n        cum_module_ids.append(offsets)\n", expect={}),
+    dict(id="r3l-accumulate-without-zero", file=FOLD, old="            itertools.accumulate([0] + module_fold_sizes),", new="            itertools.accumulate(module_fold_sizes),", expect={"C01": ["R3l:"], "C02": ["R3l:"], "C06": ["R3l:"]}),
+    dict(id="r3m-reversed-fold-idx", file="cirkit/backend/torch/circuits.py", old="None, [fold_idx_info.out_fold_idx], num_folds=num_folds, output=True", new="None, [list(reversed(fold_idx_info.out_fold_idx))], num_folds=num_folds, output=True", expect={"C01": ["R3m:"], "C02": ["R3m:"], "C06": ["R3m:"]}, allow_others=True),
+    dict(id="q-r11l-seed-clamped", quiet=True, patch="seeded/C12e/patch.diff", edits=[(TINPUT, "            log_probs, log_compl_probs = torch.log(probs), torch.log1p(-probs)", "            probs = torch.distributions.utils.clamp_probs(probs)\n            log_probs, log_compl_probs = torch.log(probs), torch.log1p(-probs)")], expect={}),
+    dict(id="q-r11l-seed-xlogy", quiet=True, patch="seeded/C12e/patch.diff", edits=[
+        (TINPUT, "            log_probs, log_compl_probs = torch.log(probs), torch.log1p(-probs)", "            log_lik = torch.xlogy(x.to(probs.dtype), probs) + torch.special.xlog1py((self.total_count - x).to(probs.dtype), -probs)"),
+        (TINPUT, "            log_probs = torch.nn.functional.logsigmoid(logits)\n            log_compl_probs = torch.nn.functional.logsigmoid(-logits)\n", "            log_lik = x * torch.nn.functional.logsigmoid(logits) + (self.total_count - x) * torch.nn.functional.logsigmoid(-logits)\n"),
+        (TINPUT, "        x = x.to(log_probs.dtype)\n", "        x = x.to(log_lik.dtype)\n"),
+        (TINPUT, "        return log_binom + x * log_probs + (self.total_count - x) * log_compl_probs", "        return log_binom + log_lik"),
+    ], expect={}),
 ]
